@@ -88,13 +88,26 @@ def run(tape, scenario):
             elif how in (4, 5):
                 off = tape.draw("c19/struct-offset", pos + 1)
                 coe = 0x100 * (1 + tape.draw("c19/coe-offset", 3))
+                # a channel is declared with one offset (for everything), two (inputs,
+                # outputs; the object index moves with the inputs) or all three
+                arity = tape.pick("c19/struct-arity", [3, 3, 2, 1])
+                other = 0 if arity == 3 else 0x10 * (1 + tape.draw("c19/other-offset", 4))
+                in_off = off if ln["sm"] == "in" else other
+                out_off = off if ln["sm"] == "out" else other
+                if arity == 1:
+                    in_off = out_off = off
+                coe_eff = coe if arity == 3 else in_off
                 body = {"x": PacketDesc(sm, pos - off, size)} if how == 4 else \
-                    {"x": ProcessDesc(idx - coe, sub)}
+                    {"x": ProcessDesc(idx - coe_eff, sub)}
                 if how == 5:
                     pdos[k][(idx, sub)] = (sm, pos, size)
+                    if arity == 2:
+                        # (the object the outputs' offset would lead to exists as well)
+                        pdos[k].setdefault((idx - in_off + out_off, sub),
+                                           (sm, max(0, pos - 1), size))
                 Ch = type(f"Ch{n}", (Struct,), body)
-                attrs[k][f"ch{n}"] = Ch(off if ln["sm"] == "in" else 0,
-                                        off if ln["sm"] == "out" else 0, coe)
+                attrs[k][f"ch{n}"] = Ch(*[in_off, out_off, coe][:arity])
+                world.count(f"c19/struct-declared-with-{arity}-offsets")
         tclasses = [type(f"GenTerm{k}", (EBPFTerminal,), attrs[k]) for k in range(len(specs))]
         terms_s = [ebpf_terminal(ec_s, st, sp["use_fmmu"], tclasses[k])
                    for k, (st, sp) in enumerate(zip(sims, specs))]
@@ -181,8 +194,9 @@ def run(tape, scenario):
                 # drawn DeviceVar values for the outputs, the same on both paths
                 for ds, df in zip(devs_s, devs_f):
                     for j, ln in enumerate(ds.outs):
+                        # (a bit is given any truthy value, not only 1)
                         v = wl.draw_value(tape, ln, "c19") if not isinstance(ln["size"], int) \
-                            else tape.draw("c19/bit", 2)
+                            else tape.pick("c19/bit", [0, 1, 1, 0, 2, 5, 0x80, 0x100])
                         setattr(ds, f"vo{j}", v)
                         setattr(df, f"vo{j}", v)
                         ln["value"] = v if ds.consts[j] is None else ds.consts[j]
